@@ -38,6 +38,9 @@ trait Sut: Clone {
     fn raw(&self) -> Option<Vec<u64>> {
         None
     }
+    /// replace the structure by `tmp`, where `tmp` is an instance with a DIFFERENT configuration and some content on
+    /// which `tmp.clone_from(&structure)` was called: Clone::clone_from must yield the same copy as clone()
+    fn reclone_via_clone_from(&mut self);
 }
 
 fn h64(xs: impl Iterator<Item = u64>) -> u64 {
@@ -74,6 +77,13 @@ impl SBloom {
     }
 }
 impl Sut for SBloom {
+    fn reclone_via_clone_from(&mut self) {
+        let other = BfCfg::new(self.cfg.m + 5, self.cfg.k + 1, (0..=self.cfg.k as u64).collect(), false);
+        let mut tmp = other.fresh();
+        tmp.insert(&Key(0)).unwrap();
+        tmp.clone_from(&self.f);
+        self.f = tmp;
+    }
     fn name(&self) -> String {
         format!("BloomFilter {}", self.cfg.label)
     }
@@ -133,6 +143,15 @@ impl SCuckoo {
     }
 }
 impl Sut for SCuckoo {
+    fn reclone_via_clone_from(&mut self) {
+        let other = CfCfg::new(3, 4, 3, vec![1, 2, 5], vec![1, 0, 2], self.cfg.budget, 3, false);
+        let mut tmp = other.fresh();
+        chooser::begin(&[], Tail::Zero);
+        let _ = tmp.insert(&other.key_of(1));
+        chooser::end();
+        tmp.clone_from(&self.f);
+        self.f = tmp;
+    }
     fn name(&self) -> String {
         format!("CuckooFilter {}", self.cfg.label)
     }
@@ -221,6 +240,13 @@ impl SQf {
     }
 }
 impl Sut for SQf {
+    fn reclone_via_clone_from(&mut self) {
+        let other = QfCfg::full(self.cfg.q + 1, self.cfg.r + 1, false);
+        let mut tmp = other.fresh();
+        tmp.insert(&Key(1)).unwrap();
+        tmp.clone_from(&self.f);
+        self.f = tmp;
+    }
     fn name(&self) -> String {
         format!("QuotientFilter {}", self.cfg.label)
     }
@@ -283,6 +309,13 @@ impl<C> Sut for SCms<C>
 where
     C: Clone + Ord + pdatastructs::num_traits::Unsigned + pdatastructs::num_traits::CheckedAdd + pdatastructs::num_traits::Zero + pdatastructs::num_traits::One + pdatastructs::num_traits::FromPrimitive + pdatastructs::num_traits::ToPrimitive + Send + Sync,
 {
+    fn reclone_via_clone_from(&mut self) {
+        let other = CmsCfg::new(self.cfg.w + 1, self.cfg.d + 1, (0..=self.cfg.d as u64).collect());
+        let mut tmp = other.fresh::<C>();
+        tmp.add(&Key(other.universe[0]));
+        tmp.clone_from(&self.s);
+        self.s = tmp;
+    }
     fn name(&self) -> String {
         format!("CountMinSketch {} counter {}", self.cfg.label, self.ct)
     }
@@ -358,6 +391,12 @@ impl SHll {
     }
 }
 impl Sut for SHll {
+    fn reclone_via_clone_from(&mut self) {
+        let mut tmp = checks::hll::fresh(if self.b < 18 { self.b + 1 } else { 4 });
+        tmp.add_hashed(7);
+        tmp.clone_from(&self.h);
+        self.h = tmp;
+    }
     fn name(&self) -> String {
         format!("HyperLogLog b={}", self.b)
     }
@@ -414,6 +453,13 @@ impl STd {
     }
 }
 impl Sut for STd {
+    fn reclone_via_clone_from(&mut self) {
+        let mut tmp = Dg::new(self.kind, self.delta * 2.0 + 1.0, self.backlog + 2);
+        tmp.insert(5.0);
+        tmp.insert_weighted(-1.0, 2.5);
+        tmp.clone_from_inner(&self.d);
+        self.d = tmp;
+    }
     fn name(&self) -> String {
         format!("TDigest {}(delta={}) backlog={}", checks::td::KIND_NAMES[self.kind], self.delta, self.backlog)
     }
@@ -482,6 +528,13 @@ struct SRes {
     n: u32,
 }
 impl Sut for SRes {
+    fn reclone_via_clone_from(&mut self) {
+        let mut tmp: ReservoirSampling<u32, ChoiceRng> = ReservoirSampling::new(self.k + 3, ChoiceRng);
+        tmp.add(900);
+        tmp.add(901);
+        tmp.clone_from(&self.r);
+        self.r = tmp;
+    }
     fn name(&self) -> String {
         format!("ReservoirSampling k={}", self.k)
     }
@@ -524,6 +577,12 @@ struct SHeap {
     any: bool,
 }
 impl Sut for SHeap {
+    fn reclone_via_clone_from(&mut self) {
+        let mut tmp: CMSHeap<u32> = CMSHeap::new(self.k + 2, CountMinSketch::with_params(self.w + 1, self.d + 1));
+        tmp.add(900);
+        tmp.clone_from(&self.h);
+        self.h = tmp;
+    }
     fn name(&self) -> String {
         format!("CMSHeap k={} sketch {}x{}", self.k, self.w, self.d)
     }
@@ -562,6 +621,13 @@ struct SLc {
     fresh: u32,
 }
 impl Sut for SLc {
+    fn reclone_via_clone_from(&mut self) {
+        let mut tmp: LossyCounter<u32> = LossyCounter::with_width(self.c.width() + 3);
+        tmp.add(900);
+        tmp.add(901);
+        tmp.clone_from(&self.c);
+        self.c = tmp;
+    }
     fn name(&self) -> String {
         format!("LossyCounter {}", self.label)
     }
@@ -743,6 +809,31 @@ fn pre_tree<S: Sut>(fresh: &S, s: &S, added: Option<bool>, depth: usize, hist: &
             if c.obs() != o0 {
                 st.viols.push((format!("{} clone differs", s.name()), "clone() answers differently from the original".into(), json!({"structure": s.name(), "history": hist.clone()})));
             }
+            if op == 0 && tail == Tail::Zero {
+                // a copy is a copy: the clone and the original answer identically under the same further operations
+                // (lockstep, same RNG answers), and Clone::clone_from onto an instance of another configuration gives the same copy
+                let mut path = vec![];
+                let before = st.viols.len();
+                lockstep(&c, s, cont_depth.min(3), &mut path, st, hist);
+                let mut cf = s.clone();
+                let rr = mccore::panics::catch(|| cf.reclone_via_clone_from());
+                if rr.is_err() || cf.obs() != o0 {
+                    let sig = format!("{} clone_from differs", s.name().split(' ').next().unwrap());
+                    if !st.viols.iter().any(|v| v.0 == sig) {
+                        st.viols.push((sig, format!("{}: clone_from() onto an instance of another configuration {}", s.name(), if let Err(p) = &rr { format!("panicked: {}", p) } else { "answers differently from the original".to_string() }), json!({"structure": s.name(), "history": hist.clone()})));
+                    }
+                } else {
+                    let mut path = vec![];
+                    lockstep(&cf, s, cont_depth.min(3), &mut path, st, hist);
+                }
+                // lockstep labels its findings as clear()-vs-fresh: relabel the ones found here
+                for v in st.viols.iter_mut().skip(before) {
+                    if v.0.contains("clear() != fresh") {
+                        v.0 = v.0.replace("clear() != fresh", "clone / clone_from is not a copy");
+                        v.1 = v.1.replace("after clear() and the same continuation a fresh instance answers differently", "after the same continuation the clone (or clone_from copy) and the original answer differently").replace("after clear() the same operation panics / draws differently than on a fresh instance", "the same operation panics / draws differently on the clone (or clone_from copy) than on the original");
+                    }
+                }
+            }
             chooser::begin_with(&[], tail, 0);
             let r = apply_caught(&mut c, op);
             let tr = chooser::end();
@@ -782,6 +873,34 @@ fn run_sut<S: Sut>(fresh: S, pre_depth: usize, cont_depth: usize) -> (String, St
         }
         if ok {
             after_pre(&fresh, &s, &[format!("deterministic sequence #{} of 1000 operations", variant)], cont_depth.min(2), &mut st);
+            // a copy of a structure with a long past stays a copy over a long future: clone() and clone_from() copies and the
+            // original receive the same 300 further operations (same RNG answers) and are compared every 20 steps
+            let mut copies: Vec<(&str, S)> = vec![("clone()", s.clone())];
+            let mut cf = s.clone();
+            if mccore::panics::catch(|| cf.reclone_via_clone_from()).is_ok() {
+                copies.push(("clone_from()", cf));
+            }
+            for (how, mut c) in copies {
+                let mut o = s.clone();
+                let cont = det_seq(fresh.n_ops(), 300, (variant + 1) % 3);
+                for (i, &op) in cont.iter().enumerate() {
+                    chooser::begin(&[], Tail::Zero);
+                    let ra = apply_caught(&mut c, op).is_err();
+                    chooser::end();
+                    chooser::begin(&[], Tail::Zero);
+                    let rb = apply_caught(&mut o, op).is_err();
+                    chooser::end();
+                    st.lockstep_steps += 1;
+                    if ra != rb || ((i % 20 == 19 || i + 1 == cont.len()) && c.obs() != o.obs()) {
+                        let sig = format!("{} {} is not a copy", fresh.name().split(' ').next().unwrap(), how);
+                        if !st.viols.iter().any(|v| v.0 == sig) {
+                            st.viols.push((sig, format!("{}: after 1000 operations, {} and {} further identical operations the copy and the original answer differently", fresh.name(), how, i + 1),
+                                json!({"structure": fresh.name(), "pre_history": format!("deterministic sequence #{} of 1000 operations", variant), "copy_made_by": how, "continuation": format!("deterministic sequence #{} , first {} operations", (variant + 1) % 3, i + 1)})));
+                        }
+                        break;
+                    }
+                }
+            }
         }
     }
     (fresh.name(), st)
@@ -970,6 +1089,56 @@ fn main() {
             run.violation(Viol { property: "C19".into(), signature: "getters of a fresh / cleared structure do not report the constructor parameters".into(), message: m.clone(), replay: json!({"what": m}) });
         }
         run.ev.set("getter_cases", json!(cases));
+    }
+    // T-Digest copies over a long, well-spread future: for every scale function the clone() / clone_from() copy of a digest
+    // with thousands of samples must evolve bit-identically to the original under the same further inserts (the scale
+    // functions K2 / K3 depend on the running sample count, which no single query exposes)
+    {
+        let mut cases = 0u64;
+        let value = |i: u64| ((i.wrapping_mul(0x9E37_79B9_7F4A_7C15) >> 11) as f64) / ((1u64 << 53) as f64) * 1000.0;
+        for kind in 0..4usize {
+            for (delta, backlog, flush) in [(50.0, 16usize, true), (50.0, 16, false), (10.0, 0, true), (200.0, 100, false)] {
+                for how in ["clone()", "clone_from()"] {
+                    cases += 1;
+                    let r = mccore::panics::catch(|| {
+                        let mut orig = Dg::new(kind, delta, backlog);
+                        for i in 0..3000u64 {
+                            orig.insert(value(i));
+                        }
+                        if flush {
+                            let _ = orig.count();
+                        }
+                        let mut copy = if how == "clone()" { orig.clone() } else {
+                            let mut t = Dg::new(kind, delta * 2.0 + 1.0, backlog + 3);
+                            t.insert(1.0);
+                            t.clone_from_inner(&orig);
+                            t
+                        };
+                        let mut diff: Option<String> = None;
+                        for i in 3000..5000u64 {
+                            orig.insert(value(i));
+                            copy.insert(value(i));
+                            if i % 250 == 249 {
+                                let (a, b) = (orig.clone(), copy.clone());
+                                let oa: Vec<u64> = vec![a.n_centroids() as u64, a.count().to_bits(), a.sum().to_bits(), a.quantile(0.01).to_bits(), a.quantile(0.5).to_bits(), a.quantile(0.999).to_bits(), a.cdf(500.0).to_bits()];
+                                let ob: Vec<u64> = vec![b.n_centroids() as u64, b.count().to_bits(), b.sum().to_bits(), b.quantile(0.01).to_bits(), b.quantile(0.5).to_bits(), b.quantile(0.999).to_bits(), b.cdf(500.0).to_bits()];
+                                if oa != ob {
+                                    diff = Some(format!("after {} further inserts (n_centroids, count, sum, quantiles, cdf as bits): original {:?}, copy {:?}", i + 1 - 3000, oa, ob));
+                                    break;
+                                }
+                            }
+                        }
+                        diff
+                    });
+                    let bad = match r { Err(p) => Some(format!("panicked: {}", p)), Ok(d) => d };
+                    if let Some(m) = bad {
+                        run.violation(Viol { property: "C19".into(), signature: format!("TDigest {} is not a copy", how), message: format!("TDigest {}(delta={}) backlog={}: 3000 spread inserts{}, {}, then the same 2000 inserts into both: {}", checks::td::KIND_NAMES[kind], delta, backlog, if flush { ", a read" } else { "" }, how, m),
+                            replay: json!({"structure": "TDigest", "scale_function": checks::td::KIND_NAMES[kind], "delta": delta, "max_backlog_size": backlog, "values": "v_i = ((i * 0x9E3779B97F4A7C15 mod 2^64) >> 11) / 2^53 * 1000", "read_before_copy": flush, "copy_made_by": how}) });
+                    }
+                }
+            }
+        }
+        run.ev.set("tdigest_copy_evolution_cases", json!(cases));
     }
     run.finish();
 }
